@@ -2,7 +2,7 @@
 import common, schema, histgen, p_hist
 THEOREMS = ["C11_equality", "C11_add_get", "C11_idempotent", "C11_nodup", "C11_injective", "C11_stable", "C11_index_in_range",
             "C11_build_qr", "C11_build_mm", "C11_reference_survives", "C11_history", "C11_clear", "C11_nonvacuous"]
-EXTRA_PROPERTY_FILES = ("Properties_hash",)   # obligations over the regenerated Gen_hash.v (translator/hashes.py)
+EXTRA_PROPERTY_FILES = ("Properties_hash", "Properties_tables")   # obligations over the regenerated Gen_hash.v (translator/hashes.py)
 def gen_cases(sch, tier, rng):
     cases = []
     for i in range(200 if tier == "quick" else 6000):
